@@ -116,8 +116,9 @@ Proof.
   destruct (negb (lc l =? 0) && tstate_eqb (s_state match stk2 with [] => fresh_level | s :: _ => s end) S_finish &&
             (zlen stk2 - 1 =? 0) && sf2 && negb af2);
     cbn [stack max_depth pb is_double st_pos ucs_char high_surrogate quote_char strict allow_trailing validate_utf8 char_offset err];
-  destruct ((lc l =? 0) && negb (tstate_eqb (s_state match stk2 with [] => fresh_level | s :: _ => s end) S_finish) &&
-            negb (tstate_eqb (s_saved match stk2 with [] => fresh_level | s :: _ => s end) S_finish));
+  destruct ((lc l =? 0) && (negb (zlen stk2 - 1 =? 0) ||
+            (negb (tstate_eqb (s_state match stk2 with [] => fresh_level | s :: _ => s end) S_finish) &&
+             negb (tstate_eqb (s_saved match stk2 with [] => fresh_level | s :: _ => s end) S_finish))));
     cbn [stack max_depth pb is_double st_pos ucs_char high_surrogate quote_char strict allow_trailing validate_utf8 char_offset err pobs];
   try reflexivity; destruct e2; reflexivity.
 Qed.
